@@ -12,6 +12,7 @@ import (
 	"fmt"
 	"net"
 	"net/http"
+	"net/textproto"
 	"os"
 	"runtime"
 	"strings"
@@ -25,6 +26,8 @@ import (
 	clientCmd "github.com/bokysan/socketace/v2/internal/commands/client"
 	serverCmd "github.com/bokysan/socketace/v2/internal/commands/server"
 	"github.com/bokysan/socketace/v2/internal/server"
+	"github.com/bokysan/socketace/v2/internal/socketace"
+	"github.com/bokysan/socketace/v2/internal/streams"
 	"github.com/bokysan/socketace/v2/internal/util/addr"
 	"github.com/bokysan/socketace/v2/internal/util/cert"
 	"github.com/gorilla/websocket"
@@ -276,6 +279,10 @@ func C16Upstream(url string) upstream.Upstream {
 //	refused      nothing listens (tcp: a bound socket that never listens, so the port cannot be taken by anyone else)
 //	silent       accepts (udp: receives) and never answers — for ever
 //	silent-inner completes the carrier's own handshake (TLS / websocket upgrade) and then never answers
+//	silent-after-200   answers the announce request with a valid "200" (inside the carrier's own TLS / websocket
+//	             handshake where there is one) and then never answers the upgrade request
+//	silent-in-starttls answers "200" advertising StartTLS, answers the upgrade request with "101" and then never
+//	             says a word of the TLS handshake the client starts
 //	hs-400       reads the request and answers "400 Bad Request" (tcp+tls: inside TLS), then closes
 //	hs-garbage   answers bytes that are no response at all, then closes
 //	hs-close     closes at once
@@ -323,6 +330,61 @@ func c16ReadHead(c net.Conn) {
 	for {
 		line, err := r.ReadString('\n')
 		if err != nil || line == "\r\n" || line == "\n" {
+			return
+		}
+	}
+}
+
+// c16HalfHandshake plays a well-behaved socketace server up to a point and then says nothing more, for ever
+// (the connection stays open): "silent-after-200" answers the announce request and ignores the upgrade
+// request; "silent-in-starttls" also answers the upgrade request with "101" (StartTLS agreed) and then never
+// answers the client's TLS handshake.
+func c16HalfHandshake(c net.Conn, manner string) {
+	r := bufio.NewReader(c)
+	head := func() bool {
+		for {
+			line, err := r.ReadString('\n')
+			if err != nil {
+				return false
+			}
+			if line == "\r\n" || line == "\n" {
+				return true
+			}
+		}
+	}
+	if !head() {
+		return
+	}
+	ver := socketace.SupportedProtocolVersions[0]
+	ok := &socketace.Response{Status: "200 OK", StatusCode: 200, Headers: make(textproto.MIMEHeader)}
+	ok.Headers.Set("Server", "socketace/scripted")
+	ok.Headers.Set("Protocol-Version", ver)
+	if manner == "silent-in-starttls" {
+		ok.Headers.Set(socketace.Capabilities, socketace.CapabilityStartTls)
+	}
+	if ok.Write(c) != nil {
+		return
+	}
+	Bump(1)
+	if !head() { // the upgrade request
+		return
+	}
+	Bump(1)
+	if manner == "silent-in-starttls" {
+		sw := &socketace.Response{Status: "101 Switching Protocols", StatusCode: 101, Headers: make(textproto.MIMEHeader)}
+		sw.Headers.Set("Server", "socketace/scripted")
+		sw.Headers.Set("Protocol-Version", ver)
+		sw.Headers.Set("Connection", "upgrade")
+		sw.Headers.Set("Upgrade", "socketace/"+ver)
+		if sw.Write(c) != nil {
+			return
+		}
+		Bump(1)
+	}
+	// whatever the client sends from here on is taken and never answered
+	buf := make([]byte, 4096)
+	for {
+		if _, err := r.Read(buf); err != nil {
 			return
 		}
 	}
@@ -404,7 +466,7 @@ func NewC16Scripted(kind, manner string) (*C16Scripted, error) {
 				}
 			}()
 			return s, nil
-		case "hs-400", "hs-garbage":
+		case "hs-400", "hs-garbage", "silent-after-200", "silent-in-starttls":
 			ln, err := kcp.ListenWithOptions("127.0.0.1:0", nil, 10, 3)
 			if err != nil {
 				return nil, err
@@ -420,11 +482,14 @@ func NewC16Scripted(kind, manner string) (*C16Scripted, error) {
 					Bump(1)
 					s.hold(c)
 					go func(c net.Conn) {
-						if manner == "hs-400" {
+						switch manner {
+						case "hs-400":
 							c16ReadHead(c)
 							c.Write([]byte(c16BadRequest))
-						} else {
+						case "hs-garbage":
 							c.Write([]byte(c16Garbage))
+						default:
+							c16HalfHandshake(c, manner)
 						}
 						// a KCP session has no end-of-stream signal: the answer itself is all the peer gets
 					}(c)
@@ -439,7 +504,7 @@ func NewC16Scripted(kind, manner string) (*C16Scripted, error) {
 		return nil, err
 	}
 	s.ln, s.Addr = ln, ln.Addr().String()
-	if kind == "ws" && manner == "silent-inner" {
+	if kind == "ws" && (manner == "silent-inner" || manner == "silent-after-200" || manner == "silent-in-starttls") {
 		up := websocket.Upgrader{}
 		mux := http.NewServeMux()
 		mux.HandleFunc("/ws/all", func(w http.ResponseWriter, r *http.Request) {
@@ -448,7 +513,10 @@ func NewC16Scripted(kind, manner string) (*C16Scripted, error) {
 				return
 			}
 			s.hold(c.UnderlyingConn())
-			select {} // upgraded, and now silent for ever
+			if manner != "silent-inner" {
+				c16HalfHandshake(streams.NewWebsocketTunnelConnection(c), manner)
+			}
+			select {} // and now silent for ever
 		})
 		s.srv = &http.Server{Handler: mux}
 		go s.srv.Serve(&c16CountingListener{Listener: ln, s: s})
@@ -471,7 +539,7 @@ func NewC16Scripted(kind, manner string) (*C16Scripted, error) {
 
 func (s *C16Scripted) serveTCP(c net.Conn) {
 	inner := c
-	needTLS := s.Kind == "tcp+tls" && (s.Manner == "silent-inner" || s.Manner == "hs-400")
+	needTLS := s.Kind == "tcp+tls" && (s.Manner == "silent-inner" || s.Manner == "hs-400" || s.Manner == "silent-after-200")
 	if needTLS {
 		pk := GetPKI()
 		crt, err := tls.X509KeyPair([]byte(pk.Good.Cert), []byte(pk.Good.Key))
@@ -489,6 +557,8 @@ func (s *C16Scripted) serveTCP(c net.Conn) {
 	switch s.Manner {
 	case "silent", "silent-inner":
 		// never answers, never closes
+	case "silent-after-200", "silent-in-starttls":
+		c16HalfHandshake(inner, s.Manner)
 	case "hs-close":
 		c.Close()
 	case "hs-garbage":
